@@ -274,6 +274,13 @@ func runChanCase(c *Case) string {
 		cut, _ = strconv.Atoi(s)
 	}
 	subCtx := ctxFromMarks(parseInts(strings.ReplaceAll(c.get("sub", "-"), ".", ",")))
+	if c.get("cc", "0") == "1" {
+		// the subscription context is already cancelled (so is every context the source derives from it): a done context
+		// does not end a stream — only ThrowOnContextCancel does — so every notification must still get through
+		cctx, cancel := context.WithCancel(subCtx)
+		cancel()
+		subCtx = cctx
+	}
 	rec := &Recorder{}
 	setRecorder(rec)
 	defer setRecorder(nil)
@@ -618,6 +625,18 @@ func genChan(tier string, seed int64, only string) []*Case {
 						add("kind", "chan", "op", "ToChannel", "cap", cs, "mode", "hot", "cut", k, "tdp", "1", "sub", "7", "src", s)
 						if capacity >= 1 {
 							add("kind", "chan", "op", "ObserveOn", "cap", cs, "mode", "hot", "cut", k, "tdp", "1", "sub", "7", "src", s)
+						}
+					}
+				}
+				if len(script) <= 5 {
+					// cancelled subscription context: nothing may be lost (the hand-off sends must not give up on ctx.Done())
+					add("kind", "chan", "op", "ToChannel", "cap", cs, "mode", "hot", "cut", "-", "cc", "1", "sub", "7", "src", s)
+					add("kind", "chan", "op", "ToChannel", "cap", cs, "mode", "sync", "cut", "-", "cc", "1", "sub", "7", "src", s)
+					if capacity >= 1 {
+						add("kind", "chan", "op", "ObserveOn", "cap", cs, "mode", "hot", "cut", "-", "cc", "1", "sub", "7", "src", s)
+						add("kind", "chan", "op", "ObserveOn", "cap", cs, "mode", "sync", "cut", "-", "cc", "1", "sub", "7", "src", s)
+						if terminated(script) {
+							add("kind", "chan", "op", "SubscribeOn", "cap", cs, "mode", "sync", "cut", "-", "cc", "1", "sub", "7", "src", s)
 						}
 					}
 				}
